@@ -571,7 +571,7 @@ class TdmsChannel(object):
         """
         channel_scaling = self._scaling
         if channel_scaling is not None:
-            return channel_scaling.get_dtype(self.data_type, self.scaler_data_types)
+            return channel_scaling.get_dtype(self._raw_data_dtype(), self.scaler_data_types)
         return self._raw_data_dtype()
 
     def _raw_data_dtype(self):
